@@ -254,6 +254,7 @@ def run(ctx, out):
             lines.append("c%d pipeline %s %d %d %d %d %d %d %d" % (k, "r" if api == "rules" else "v", okind != "none", dkind != "graph",
                                                                    inf != "none", adv or api == "rules", inplace, embed, rules != "none"))
     replies = ctx.driver.ask(lines)
+    empty_ontology_family(rng, out, sgs)
     for k, (api, dkind, okind, inf, adv, it, inplace, rules, embed, fault) in enumerate(plan):
         sg = sgs[rules]
         data = make_data(rng, dkind, embed=list(sg) if embed else None)
@@ -309,3 +310,27 @@ def run(ctx, out):
                 if (vv == "data") != (tgt == "data") and rules != "none" or (vv == "data" and tgt != "data" and not adv):
                     out.a_mismatch.append({"case": cfg, "code_validated": vv, "model_target": tgt, "op": "pipeline"})
         out.sample({"config": cfg, "ops": tr.canonical(), "outcome": outcome})
+
+
+def empty_ontology_family(rng, out, sgs):
+    """an ontology graph that is passed but holds no triple (Graph and Dataset): the mix-in has nothing to add, yet everything that
+    writes afterwards (pre-inference, rules) must still work on a copy"""
+    import pyshacl
+    for okind in ("graph", "dataset"):
+        for dkind in ("graph", "dataset"):
+            for inf, adv, rules in (("rdfs", False, "none"), ("owlrl", False, "none"), ("both", True, "both"), ("none", True, "both"), ("none", True, "sparql"), ("none", True, "triple")):
+                data = make_data(rng, dkind)
+                ont = Graph() if okind == "graph" else Dataset()
+                before = snapshot(data)
+                cfg = {"api": "validate", "data": dkind, "ont": okind + ":empty", "inference": inf, "advanced": adv, "inplace": False, "rules": rules}
+                out.evaluations += 1
+                try:
+                    pyshacl.validate(data, shacl_graph=sgs[rules], ont_graph=ont, inference=inf, advanced=adv, inplace=False)
+                    outcome = "ok"
+                except Exception as e:  # noqa
+                    outcome = type(e).__name__
+                after = snapshot(data)
+                out.count("empty-ont:" + outcome)
+                if after != before:
+                    out.b_fail.append({"signature": "C08:data-graph-modified", "case": cfg, "outcome": outcome,
+                                       "added": [str(x) for x in list(after - before)[:4]]})
